@@ -129,14 +129,22 @@ class Check:
                 n["mtime"] = (int(a.replace(tzinfo=z).timestamp()) + rng.choice([-100000, 0, 100000])) * 10 ** 9
         _, plan = gen.gen_env(rng, world)
         plan["clock"] = [now * 10 ** 9 + rng.choice([0, 999999999]), tick]
+        if relative and rng.random() < 0.25:
+            # torn-read campaign: local midnight falls between the k-th and the (k+1)-th clock read, for every k
+            mid = DT(day[0], day[1], day[2], 0, 0, 0, tzinfo=z) + datetime.timedelta(days=1)
+            mid = int(DT(mid.year, mid.month, mid.day, 0, 0, 0, tzinfo=z).timestamp())
+            return {"sub": "jump", "top": top, "lit": lit, "tz": tz, "midnight": mid, "entropy": plan["entropy"], "kmax": 48}
         return {"world": world, "top": top, "lit": lit, "tz": tz, "plan": plan}
 
     def sample_view(self, case):
         c = dict(case)
-        c["world"] = gen.view_world(case["world"], 25)
+        if "world" in c:
+            c["world"] = gen.view_world(case["world"], 25)
         return c
 
     def shrinks(self, case):
+        if case.get("sub") == "jump":
+            return
         if case["plan"]["clock"][1]:
             c = copy.deepcopy(case)
             c["plan"]["clock"][1] = 0
@@ -154,7 +162,46 @@ class Check:
             t = lit_text(lit)
         return "'%s'" % t if lit["quoted"] else t
 
+    def eval_jump(self, case, ctx):
+        """`today`, `yesterday`, offsets denote ONE whole local day even if local midnight passes between two clock reads.
+        Two worlds that differ only in one file's mtime (noon of day X, noon of day X+1) run under the same clock plan
+        (midnight strikes at the k-th read): whichever day the literal denotes, exactly one of the two files is selected."""
+        z = zoneinfo.ZoneInfo(case["tz"])
+        lit = case["lit"]
+        mid = case["midnight"]
+        off = {"today": 0, "yesterday": -1, "minus": -lit["n"], "plus": lit["n"]}[lit["rel"]]
+        dayD = datetime.datetime.fromtimestamp(mid - 1, z).date() + datetime.timedelta(days=off)
+        top = case["top"]
+        ltext = self.literal(lit)
+        q = "select path from %s where modified = %s into list" % (top, ltext)
+        viols = []
+        sel = {}
+        ks = [case["only_k"]] if case.get("only_k") is not None else list(range(0, case.get("kmax", 48)))
+        for which in (0, 1):
+            d = dayD + datetime.timedelta(days=which)
+            ts = int(DT(d.year, d.month, d.day, 12, 0, 0, tzinfo=z).timestamp())
+            world = {"nodes": [{"path": top, "type": "dir"}, {"path": top + "/f", "type": "file", "content": "x", "mtime": ts * 10 ** 9}]}
+            with ctx.sandbox(world) as sb:
+                for k in ks:
+                    plan = {"entropy": case["entropy"], "clock": [(mid - 1) * 10 ** 9 + 900000000, 0], "clock_jump": [mid * 10 ** 9 + 100000000, k]}
+                    res = sb.run([q], plan=plan, tz=case["tz"])
+                    if res.sim or res.status != 0 or res.signal is not None:
+                        return [Violation(PROP, "C13.run", ["C13.run", "abnormal_end", "jump:" + lit["rel"]], {"query": q, "tz": case["tz"], "k": k, "outcome": res.summary()})]
+                    sel[(which, k)] = len(res.rows(1)) == 1
+                    ctx.metric("jump_runs")
+        for k in ks:
+            if sel[(0, k)] == sel[(1, k)]:
+                viols.append(Violation(PROP, "C13.rel", ["C13.rel", "literal_spans_two_days_or_none", "jump:" + lit["rel"]],
+                                       {"query": q, "tz": case["tz"], "midnight_at_clock_read": k, "only_k": k, "file_day_X_selected": sel[(0, k)], "file_day_X_plus_1_selected": sel[(1, k)],
+                                        "day_X": str(dayD)}))
+                break
+        if len(ctx.samples) < 2:
+            ctx.samples.append({"argv": [q], "tz": case["tz"], "midnight_strikes_at_read": "every k in 0..%d" % (len(ks) - 1)})
+        return viols
+
     def evaluate(self, case, ctx):
+        if case.get("sub") == "jump":
+            return self.eval_jump(case, ctx)
         world = case["world"]
         top = case["top"]
         nm = gen.node_map(world)
